@@ -292,4 +292,26 @@ apply: simple_root_sign_change gv (simple v gv) uniq glo ghi.
 by rewrite lov.
 Qed.
 
+
+(* the interval count in the exact form consumed by the reference arithmetic (RefAlgArith.count_open_correct_premise);
+   square-freeness of r is NOT needed once both ends are non-roots *)
+Theorem count_open_correct (r : seq Z) (l h : Z * Z) : qpos l -> qpos h -> qr l < qr h :> R ->
+  Poly r != 0 -> (pr r).[qr l] != 0 :> R -> (pr r).[qr h] != 0 :> R ->
+  count_open r l h = size (roots (pr r : {poly R}) (qr l) (qr h)).
+Proof.
+move=> Hl Hh lh r0 rl rh.
+have r0' : ~~ pis_zero r by apply/negP => /pis_zeroP /eqP; rewrite (negPf r0).
+have R0 : PR r != 0 by rewrite PR_eq0.
+rewrite /count_open psgn_q_neq0 // -pr_PR -qr_QR (negPf rh).
+have := count_roots_oc_fin_nonroot r0' (qpos_gt0 Hl) (qpos_gt0 Hh) lh.
+rewrite -!(root_rat R) ?rootE; try exact: qpos_gt0.
+move=> /(_ rl rh) ->; congr size; apply: lt_sorted_eq; last first.
+- move=> z; rewrite mem_filter in_rootsR // in_roots R0 andbT in_itv /= andbC.
+  case rz: (root (PR r) z); rewrite ?andbF //=.
+  rewrite -!qr_QR; congr (_ && _).
+  by rewrite le_eqVlt; case: eqP => // zh; move: rz; rewrite zh rootE pr_PR in rh *; rewrite (negPf rh).
+- exact: sorted_roots.
+- by apply: sorted_filter (sorted_roots _ _ _); exact: lt_trans.
+Qed.
+
 End Valid.
